@@ -145,6 +145,7 @@ def churn_shard(shard, nshards, seed, tier, exe, nhist):
             uid = 10
             every = 1 if nops <= 100 else 7 if nops <= 1000 else 97
             switch_at = rng.randrange(nops) if rng.random() < 0.25 else -1
+            resize_at = rng.randrange(nops) if rng.random() < 0.2 else -1
             for j in range(nops):
                 k = rng.choice(uni)
                 r = rng.random()
@@ -176,6 +177,10 @@ def churn_shard(shard, nshards, seed, tier, exe, nhist):
                 else:
                     cmds.append("OGET 0 x%s" % k.hex())
                     plan.append(("get", k, k in model, model.get(k)))
+                if resize_at == j:
+                    # the object's table is resized by hand to a size that is not a power of two (lh_table_resize is public): nothing observable may change
+                    cmds.append("ORESIZE 0 %d" % rng.choice([37, 50, 100, 1000, 24, 17]))
+                    plan.append(("hashfn",))
                 if switch_at == j:
                     # the process-wide string hash is switched while the object is alive: existing objects must keep answering (new ones use the new function)
                     cmds.append("HASHFN %d" % (1 - hashfn))
